@@ -77,6 +77,11 @@ def run(rep):
              'it - _uncached_lookup subscribes to the complete required tuple on '
              'every exit, hit or miss, and _subscribe to every specification in it '
              '(shared with C04 R04.7 / C05 INV-4)', floor=2)
+    rep.rule('R19.7', 'the synthesized specification lists the class specification of EVERY '
+             'class of the remainder as a base: the argument normaliser passes interfaces '
+             'and class specifications through as they are (none dropped as "implied"), so '
+             'the proxy keeps following each of them when it is re-declared later '
+             '(C20 R20.5)', floor=1)
     rep.decline('that the synthesized specification equals "interfaces of the '
                 'classes after C" for every class DAG (depends on C3 merging, '
                 'C03)')
@@ -178,3 +183,5 @@ def run(rep):
     amod_ = rep.repo.module('adapter.py')
     subscribe_on_all_exits(rep, amod_, 'R19.6', only=('_uncached_lookup',))
     subscribe_all_spec(rep, amod_, 'R19.6')
+    from . import declsem as _d7
+    _d7.normalizeargs(rep, rep.repo.module('declarations.py'), 'R19.7')
